@@ -326,6 +326,31 @@ def check_conversions(ctx, A, B, kind, blocks, strand, cds_blocks, cs, ce, what)
                 ctx.eq(what + ":conversion_same_on_chunk:sequence_interval_to_cds", _outcome(B.sequence_interval_to_cds, a, b, STRAND["+"]), _outcome(A.sequence_interval_to_cds, a, b, STRAND["+"]), extra=[a, b])
 
 
+def _from_location(ctx, A, what, cls, g):
+    """the other alternative constructor: from a location on the whole chromosome (with the CDS object of a coding transcript). It is
+    the object the ordinary constructor builds from the same blocks: same identifier, same dictionary form, same sequence; and it
+    refuses a location that sits on a sequence chunk (documented)"""
+    loc = A.chromosome_location
+    try:
+        kw = {"cds": A.cds} if getattr(A, "cds", None) is not None else {}
+        X = cls.from_location(loc, **kw)
+        st_, en_ = [b_.start for b_ in loc.blocks], [b_.end for b_ in loc.blocks]
+        if kw:
+            T = cls(st_, en_, loc.strand, cds_starts=list(A.cds._genomic_starts), cds_ends=list(A.cds._genomic_ends), cds_frames=list(A.cds.frames), parent_or_seq_chunk_parent=loc.parent)
+        else:
+            T = cls(st_, en_, loc.strand, parent_or_seq_chunk_parent=loc.parent)
+    except (BioCantorException, ValueError) as e:
+        ctx.fail(what + ":from_location_raises", repr(e)[:120])
+        return
+    ctx.eq(what + ":from_location:same_guid_as_constructor", str(X.guid), str(T.guid))
+    ctx.eq(what + ":from_location:same_dict_as_constructor", norm_dict(X.to_dict()), norm_dict(T.to_dict()))
+    ctx.eq(what + ":from_location:chromosome_blocks", rm.loc_blocks(X.chromosome_location), rm.loc_blocks(loc))
+    ctx.eq(what + ":from_location:spliced_sequence", str(X.get_spliced_sequence()), str(A.get_spliced_sequence()))
+    if kw:
+        ctx.eq(what + ":from_location:cds_sequence", str(X.get_cds_sequence()) if X.cds else None, str(A.get_cds_sequence()))
+    ctx.label("from_location")
+
+
 def _from_chunk_relative(ctx, B, what, cls, blocks, strand, cs, ce, g):
     """the documented constructor from a location on the chunk: the object it builds sits on the chromosome where that location
     lifts to - same bases, same chromosome strand, same spliced sequence"""
@@ -401,6 +426,7 @@ def check_view(spec, ctx):
         check_interval_view(ctx, A, B, o["blocks"], o["strand"], cs, ce, g, "feature", cst)
         check_conversions(ctx, A, B, "feat", o["blocks"], o["strand"], None, cs, ce, "feature")
         _from_chunk_relative(ctx, B, "feature", type(B), o["blocks"], o["strand"], cs, ce, g)
+        _from_location(ctx, A, "feature", type(A), g)
         _other_question_order(ctx, mkfeat(o, PB), "feature", o["blocks"], o["strand"], cs, ce, g)
         Bp = A.liftover_to_parent_or_seq_chunk_parent(PB)
         ctx.eq("feature:relifted_equals_built", (norm_dict(Bp.to_dict()), rm.loc_blocks(Bp.chunk_relative_location) if not Bp.chunk_relative_location.is_empty else []),
@@ -435,6 +461,7 @@ def check_view(spec, ctx):
                 if not clip_tie:
                     check_cds_view(ctx, A.cds, B.cds, cspec, cs, ce, g, "transcript_cds", cst=cst)
         _from_chunk_relative(ctx, B, "transcript", type(B), o["exons"], o["strand"], cs, ce, g)
+        _from_location(ctx, A, "transcript", type(A), g)
         _other_question_order(ctx, mktx(o, PB), "transcript", o["exons"], o["strand"], cs, ce, g)
         Bp = A.liftover_to_parent_or_seq_chunk_parent(PB)
         ctx.eq("transcript:relifted_to_dict", norm_dict(Bp.to_dict()), norm_dict(B.to_dict()))
